@@ -23,6 +23,7 @@
 #include "errortypes.h"
 #include <limits>
 #include <string>
+#include <type_traits>
 
 template<class T>
 bool isEqual(T x, T y)
@@ -46,6 +47,47 @@ bool isZero(T x)
     return isEqual(x, T(0));
 }
 
+// signed integer overflow is undefined behaviour so integral operands are
+// added, subtracted and multiplied in the corresponding unsigned type (wrap around)
+template<class T>
+T addWrap(T x, T y, std::true_type /*integral*/)
+{
+    using U = typename std::make_unsigned<T>::type;
+    return static_cast<T>(static_cast<U>(x) + static_cast<U>(y));
+}
+
+template<class T>
+T addWrap(T x, T y, std::false_type /*integral*/)
+{
+    return x + y;
+}
+
+template<class T>
+T subWrap(T x, T y, std::true_type /*integral*/)
+{
+    using U = typename std::make_unsigned<T>::type;
+    return static_cast<T>(static_cast<U>(x) - static_cast<U>(y));
+}
+
+template<class T>
+T subWrap(T x, T y, std::false_type /*integral*/)
+{
+    return x - y;
+}
+
+template<class T>
+T mulWrap(T x, T y, std::true_type /*integral*/)
+{
+    using U = typename std::make_unsigned<T>::type;
+    return static_cast<T>(static_cast<U>(x) * static_cast<U>(y));
+}
+
+template<class T>
+T mulWrap(T x, T y, std::false_type /*integral*/)
+{
+    return x * y;
+}
+
 /**
  * @throws InternalError thrown in case of unknown operator
  */
@@ -60,11 +102,11 @@ R calculate(const std::string& s, const T& x, const T& y, bool* error = nullptr)
     constexpr MathLib::bigint maxBitsSignedShift = maxBitsShift - 1;
     switch (MathLib::encodeMultiChar(s)) {
     case '+':
-        return wrap(x + y);
+        return wrap(addWrap(x, y, std::is_integral<T>{}));
     case '-':
-        return wrap(x - y);
+        return wrap(subWrap(x, y, std::is_integral<T>{}));
     case '*':
-        return wrap(x * y);
+        return wrap(mulWrap(x, y, std::is_integral<T>{}));
     case '/':
         if (isZero(y) || (std::is_signed<T>{} && y < 0)) {
             if (error)
@@ -95,7 +137,7 @@ R calculate(const std::string& s, const T& x, const T& y, bool* error = nullptr)
                 *error = true;
             return R{};
         }
-        return wrap(MathLib::bigint(x) << MathLib::bigint(y));
+        return wrap(static_cast<MathLib::bigint>(static_cast<MathLib::biguint>(MathLib::bigint(x)) << MathLib::bigint(y)));
     case '>>':
         if (y >= maxBitsSignedShift || y < 0 || x < 0) {
             if (error)
@@ -116,7 +158,7 @@ R calculate(const std::string& s, const T& x, const T& y, bool* error = nullptr)
     case '<=':
         return wrap(x <= y);
     case '<=>':
-        return wrap(x - y);
+        return wrap((x > y) - (x < y));
     }
     throw InternalError(nullptr, "Unknown operator: " + s);
 }
